@@ -218,6 +218,20 @@ func pair(r *ev.Run, sg sysgen, a, b string, extra []string, rng *rand.Rand) {
 		cands = cands[:80]
 	}
 	cands = append(cands, extra...)
+	// Accumulation from the empty set, the way a caller folds a list of
+	// sets: acc = {} ∪ A ∪ B. The operand objects themselves (not fresh copies)
+	// must still match afterwards as they did before.
+	var acc semver.Set
+	var aUsed, bUsed *semver.Constraint
+	accOK := false
+	if e, err := sg.sys.ParseSetConstraint("{<empty>}"); err == nil && sg.name != "Go" {
+		acc = e.Set()
+		aUsed, bUsed = parse(sg, a), parse(sg, b)
+		if aUsed != nil && bUsed != nil && acc.Union(aUsed.Set()) == nil && acc.Union(bUsed.Set()) == nil {
+			accOK = true
+			r.Count("accumulations:"+sg.name, 1)
+		}
+	}
 	onlyOne, both := false, false
 	done := map[string]bool{}
 	for _, vs := range cands {
@@ -238,6 +252,14 @@ func pair(r *ev.Run, sg sysgen, a, b string, extra []string, rng *rand.Rand) {
 			if !done[law] {
 				done[law] = true
 				viol(law, what, vs)
+			}
+		}
+		if accOK {
+			if got := acc.MatchVersion(v); got != (ma || mb) {
+				rep("union:accumulated", fmt.Sprintf("v=%s: A matches %v, B matches %v, ({} ∪ A ∪ B) = %s matches %v", vs, ma, mb, acc.String(), got))
+			}
+			if aUsed.Set().MatchVersion(v) != ma || bUsed.Set().MatchVersion(v) != mb {
+				rep("operand-modified", fmt.Sprintf("v=%s: after {} ∪ A ∪ B the operand objects match differently than before (A: %v, was %v; B: %v, was %v); A now prints %s", vs, aUsed.Set().MatchVersion(v), ma, bUsed.Set().MatchVersion(v), mb, aUsed.Set().String()))
 			}
 		}
 		if errU == nil {
